@@ -245,7 +245,7 @@ def run_C02(chk):
     scale = chk.tier if not (chk.broken or chk.degraded) else 'thorough'
     if exe is None or not getattr(chk, 'driver_ok', False):
         return chk.finish()
-    zones = pick_corpus(chk, scale) + Z.seam_zones() + Z.rejected_zones()     # rejected files: nothing is asked of them unless a tree loads them
+    zones = pick_corpus(chk, scale) + Z.seam_zones() + Z.close_zones() + Z.rejected_zones()     # rejected files: nothing is asked of them unless a tree loads them
     blocks, meta = civil_blocks(chk, zones, scale, shuffle_too=True)
     mo, io = run_blocks(chk, exe, blocks, 'civil-lookup')
     note_mismatches(chk, blocks, mo, io, 'civil-lookup')
@@ -288,7 +288,7 @@ def run_C03(chk):
     scale = chk.tier if not (chk.broken or chk.degraded) else 'thorough'
     if exe is None or not getattr(chk, 'driver_ok', False):
         return chk.finish()
-    zones = pick_corpus(chk, scale) + Z.seam_zones() + Z.rejected_zones()     # rejected files: nothing is asked of them unless a tree loads them
+    zones = pick_corpus(chk, scale) + Z.seam_zones() + Z.close_zones() + Z.rejected_zones()     # rejected files: nothing is asked of them unless a tree loads them
     blocks = []; meta = []
     for i, zn in enumerate(zones):
         ts = [t for t in Z.probe_instants(zn, chk.rng, per_transition=3 if scale == 'quick' else 8, n_random=50 if scale == 'quick' else 300)
@@ -342,7 +342,8 @@ def run_C03(chk):
     chk.cov['rule'] = ('the probe instants of C01 restricted to [min()+1day, max()-1day]: lookup(t) on the implementation, then lookup(reported civil second) (must be UNIQUE with pre == t or REPEATED with t in {pre, post}), '
                        'then lookup of every unsaturated instant returned (must display that civil second); every step also compared with the model; non-trivial = round trips that closed')
     for bi in (0, len(blocks) - 1):
-        chk.sample({'zone': zones[bi].name, 'forward': blocks[bi][4] + ' -> ' + io[bi][4], 'backward': blocks2[bi][4] + ' -> ' + io2[bi][4]})
+        if len(blocks[bi]) > 4 and len(blocks2[bi]) > 4 and len(io2[bi]) > 4:
+            chk.sample({'zone': zones[bi].name, 'forward': blocks[bi][4] + ' -> ' + io[bi][4], 'backward': blocks2[bi][4] + ' -> ' + io2[bi][4]})
     return chk.finish()
 
 
@@ -354,7 +355,7 @@ def run_C06(chk):
     scale = chk.tier if not (chk.broken or chk.degraded) else 'thorough'
     if exe is None or not getattr(chk, 'driver_ok', False):
         return chk.finish()
-    zones = pick_corpus(chk, scale) + Z.seam_zones() + Z.rejected_zones()     # rejected files: nothing is asked of them unless a tree loads them
+    zones = pick_corpus(chk, scale) + Z.seam_zones() + Z.close_zones() + Z.rejected_zones()     # rejected files: nothing is asked of them unless a tree loads them
     blocks, meta = civil_blocks(chk, zones, scale, op='cv', shuffle_too=True)
     mo, io = run_blocks(chk, exe, blocks, 'convert')
     note_mismatches(chk, blocks, mo, io, 'convert')
